@@ -29,6 +29,8 @@ const WORDS: &[&str] = &[
 const TRIVIA: &[&str] = &[
     " ", "  ", "\t", "\n", "\r\n", "\n\n", "// c\n", "// /* not open\n", "//\n", "/**/", "/* c */", "/* // */", "/* a\nb */", "/* a\r\nb **/",
     "\\\n", "\\\r\n", " \\\n ", "/* * / */", "//c\r\n",
+    // comments whose text begins or ends with the delimiter characters
+    "/*/ a */", "/*/*/", "/***/", "/* /* */", "/*//*/", "/*/\n*/", "/* \" */", "/* ' */", "// */\n", "/// \"\n", "/* *//**/", "/*/ */ ",
 ];
 
 #[derive(Clone, Debug)]
